@@ -161,6 +161,16 @@ def run(ctx):
             pile = gi.get_pileup()
             cmp_dense("array[chromosome-name]", {n: np.asarray(pile[n].to_array() if hasattr(pile[n], "to_array") else pile[n]) for n in names}, cov)
         guard("array[chromosome-name]", by_name)
+        def dict_edited():
+            # the dense arrays handed out by to_dict() belong to the caller: editing them leaves the track as it was
+            pile = gi.get_pileup()
+            dd = pile.to_dict()
+            for n_ in names:
+                a_ = np.asarray(dd[n_])
+                if a_.size and a_.flags.writeable:
+                    a_[:] = 99
+            cmp_dense("array[chromosome-name]", pile.to_dict(), cov, ":after-the-caller-edited-the-arrays-of-to_dict")
+        guard("array[chromosome-name]", dict_edited)
         guard("get_pileup", lambda: cmp_dense("get_pileup", gi.get_pileup().to_dict(), cov))
         guard("get_mask", lambda: cmp_dense("get_mask", gi.get_mask().to_dict(), lambda n: cov(n) > 0))
         if g_ivs:
@@ -426,6 +436,9 @@ def run(ctx):
             gorder = list(gf.get_genome_context().chrom_sizes)
             q = [(x, s) for x, s in zip(ivs, strands) if x[0] in gorder]
             q.sort(key=lambda t: (gorder.index(t[0][0]), t[0][1], t[0][2]))
+            unsorted_q = len(q) >= 3 and r.random() < 0.5
+            if unsorted_q:
+                r.shuffle(q)            # interval tables need not be sorted: each row gets the sequence of its own interval
             if not q:
                 return
             qi = [x for x, _ in q]
@@ -436,7 +449,7 @@ def run(ctx):
             for (c, a, b), s_ in zip(qi, qs):
                 t = seqs[c][a:b]
                 exp.append("".join(COMP[x] for x in reversed(t)) if s_ == "-" else t)
-            ctx.check("sequence[intervals]", got == exp, "GenomicSequence[intervals]/indexed-fasta:file-order-differs-from-genome-order", "indexed-FASTA sequence under intervals gave %r expected %r (file order %r, genome order %r)" % (got[:4], exp[:4], order, gorder),
+            ctx.check("sequence[intervals]", got == exp, "GenomicSequence[intervals]/indexed-fasta:file-order-differs-from-genome-order%s" % (":unsorted-intervals" if unsorted_q else ""), "indexed-FASTA sequence under intervals gave %r expected %r (file order %r, genome order %r)" % (got[:4], exp[:4], order, gorder),
                       dict(wit, file_order=order, genome_order=gorder, got=got[:8], expected=exp[:8]), nt and (nt, "fasta", tuple(order), sort_names))
             for pth in (path, path + ".fai"):
                 if os.path.exists(pth):
